@@ -5,7 +5,8 @@
    appeared (view name, leniency as probed), views whose observation changed (sofa id/num/text/mime/uri/array,
    select_all as sorted labels), the view-name and sofa-name lists when they changed, and structures whose
    (xmiID, sofa, language) changed.  check_case runs Views.step, keeps the expected full observation by applying
-   the deltas, and compares the model's full observation with it after every step. *)
+   the deltas, and compares the model's full observation with it after every step.  A step is an operation or a
+   type declaration (Views.ev): the type-system facts are threaded through the history by Views.step_ev. *)
 From Cassis Require Import Base Views.
 From Coq Require Import Ascii.
 Open Scope Z_scope.
@@ -23,7 +24,7 @@ Record delta := mkDelta {
   d_objs : list (oid * oobs) }.
 Record case := mkCase {
   c_ts : tsinfo; c_ctor : ctor; c_heap : list (oid * fsobj);
-  c_init : delta; c_steps : list (op * obs * delta) }.
+  c_init : delta; c_steps : list (ev * obs * delta) }.
 
 (* ---------------------------------------------------------------- equality *)
 Definition opt_eqb {A} (eqb : A -> A -> bool) (a b : option A) : bool :=
@@ -90,13 +91,13 @@ Definition full_eqb (a b : full) : bool :=
   pair_eqb (list_eqb String.eqb) (list_eqb String.eqb) (fu_names a) (fu_names b) &&
   list_eqb (pair_eqb N.eqb oobs_eqb) (fu_objs a) (fu_objs b).
 
-Fixpoint check_steps (ts : tsinfo) (s : state) (expected : full) (steps : list (op * obs * delta)) : bool :=
+Fixpoint check_steps (ts : tsinfo) (s : state) (expected : full) (steps : list (ev * obs * delta)) : bool :=
   match steps with
   | [] => true
-  | (o, res, d) :: r =>
-      let '(s', got) := step ts s o in
+  | (e, res, d) :: r =>
+      let '(ts', s', got) := step_ev ts s e in
       let expected' := apply_delta expected d in
-      obs_eqb got res && full_eqb (observe s') expected' && check_steps ts s' expected' r
+      obs_eqb got res && full_eqb (observe s') expected' && check_steps ts' s' expected' r
   end.
 
 Definition check_case (c : case) : bool :=
